@@ -3,6 +3,7 @@ package fuse
 import (
 	"context"
 	"fmt"
+	"io"
 	"math"
 	"os"
 	"sync"
@@ -492,10 +493,11 @@ func (fs *fsMutable) ReadFile(
 
 	fs.backingFiles[op.Inode] = &file
 	op.BytesRead, err = file.ReadAt(op.Dst, op.Offset)
-	if err != nil {
+	if err != nil && err != io.EOF {
 		return jfuse.EIO
 	}
-	return
+	// a read reaching the end of the file is a short read, not an error
+	return nil
 }
 
 func (fs *fsMutable) WriteFile(
